@@ -13,7 +13,8 @@ VARIABLES n, job
 gvars == <<mem, hb, out, step, n, job>>
 ASSUME Buf = {1}
 
-PatByte(k, i) ==
+PatByte(k, i0) ==                      \* (i reduced first: arenas of the maximal-length cases have 65k bytes, TLC integers are 32 bit)
+  LET i == i0 % 1009 IN
   IF k = 0 THEN 0 ELSE IF k = 1 THEN 255
   ELSE (((i * i * 7 + 13 * i * k + 101 * k * k + 29) % 251) + ((i * k) % 5)) % 256
 Pat(k, len) == Mat([i \in 1..len |-> PatByte(k, i)])
@@ -23,7 +24,7 @@ ValBytes(s, c, p) ==
   Mat([i \in 1..(s * c) |->
      CASE p = 0 -> 0
        [] p = 1 -> 255
-       [] p = 2 -> ((i - 1) * 37) % 256                     \* distinct bytes, first one 0x00
+       [] p = 2 -> (((i - 1) % 256) * 37) % 256             \* distinct bytes, first one 0x00
        [] p = 3 -> IF (i - 1) % s = 0 THEN 128 ELSE 0         \* sign bit / -0.0 per element
        [] p = 4 -> IF (i - 1) % s = 0 THEN 127 ELSE 255       \* largest positive
        [] p = 5 -> IF (i - 1) % s = 0 THEN 127 ELSE IF (i - 1) % s = 1 THEN (IF s = 8 THEN 248 ELSE 192)
